@@ -135,3 +135,67 @@ def load(d):
         _lines.add((f, l))
     for k, v in d['arcs']:
         _arcs.setdefault(tuple(k), set()).update(v)
+
+
+# ---------------------------------------------------------------------------------------------------------------
+# Argument coverage (development aid, VERIF_ARGCOV=1): for every function of the package, which KINDS of values each
+# parameter received over a run.  A parameter that only ever saw one kind (its default, say) marks code no case varies -
+# the kind of hole the seeded changes kept finding (an optional argument, a second receiver class, an unusual value).
+_args = {}        # qualname -> param -> set of kinds
+_calls = {}
+
+
+def _kind(v):
+    t = type(v).__name__
+    if v is None or isinstance(v, bool):
+        return repr(v)
+    if isinstance(v, int):
+        return 'int:' + ('0' if v == 0 else '-1' if v == -1 else 'neg' if v < 0 else '1' if v == 1 else 'pos' if v < 10 ** 6 else 'huge')
+    if type(v) is str:
+        if v == '':
+            return "str:''"
+        k = 'str'
+        if '\x1b' in v:
+            k += '+esc'
+        if not v.isascii():
+            k += '+nonascii'
+        if len(v) == 1:
+            k += ':1char'
+        return k
+    if isinstance(v, (list, tuple)):
+        if not v:
+            return t + ':empty'
+        return t + ':of ' + ','.join(sorted(set(type(x).__name__ for x in v)))[:40]
+    if isinstance(v, dict):
+        return 'dict:empty' if not v else 'dict'
+    return t
+
+
+def start_args():
+    mon = sys.monitoring
+    E = mon.events
+
+    def on_start(code, offset):
+        f = code.co_filename
+        if not f.startswith(_root):
+            return mon.DISABLE
+        n = _calls.get(code, 0) + 1
+        _calls[code] = n
+        if n > 400 and n % 37:
+            return None
+        fr = sys._getframe(1)
+        q = code.co_qualname
+        d = _args.setdefault(q, {})
+        for name in code.co_varnames[:code.co_argcount + code.co_kwonlyargcount + bool(code.co_flags & 4) + bool(code.co_flags & 8)]:
+            try:
+                d.setdefault(name, set()).add(_kind(fr.f_locals.get(name)))
+            except Exception:  # noqa
+                pass
+        return None
+
+    mon.register_callback(TOOL, E.PY_START, on_start)
+    mon.set_events(TOOL, E.LINE | E.BRANCH | E.PY_START)
+
+
+def dump_args():
+    return {q: {p: sorted(k) for p, k in d.items()} for q, d in _args.items()}
